@@ -181,7 +181,7 @@ theorem mem_rangeMid (r : Range) (hs : 0 ≤ r.start) (hc : 0 ≤ r.count) :
   · split at h
     · rcases List.mem_cons.mp h with rfl | h
       · exact .inr rfl
-      · exact .inl (intDigits_digits _ (by omega) c h)
+      · exact .inl (intDigits_digits _ (by have := hc; omega) c h)
     · simp at h
 
 theorem NL_notMem_rangeMid (r : Range) (hs : 0 ≤ r.start) (hc : 0 ≤ r.count) : NL ∉ rangeMid r := by
@@ -388,7 +388,7 @@ theorem ctxStep_inv (h : Hunk) {c : List PatchLine} {s s' : CtxState} {pl : Patc
     · simp [oldOf_append, hp.oldLine]; simp [oldOf]
     · simp [newOf_append, hp.newLine]; simp [newOf, PLUS, MINUS]
     · simp [ctxs_append, hp.oldCtx]; simp [ctxs, PLUS, SP]
-    · simp [ctxs_append, hp.newCtx]; (have : (t.operation == SP) = false := by simpa using hne); simp [ctxs, List.filter, this, PLUS_beq_SP]
+    · simp [ctxs_append, hp.newCtx]; (have : (t.operation == SP) = false := by simpa using hne); simp [ctxs, List.filter, this]
     · exact hp.oldOps
     · intro l hl
       rcases List.mem_append.mp hl with h | h
@@ -420,7 +420,7 @@ theorem ctxStep_inv (h : Hunk) {c : List PatchLine} {s s' : CtxState} {pl : Patc
     constructor
     · simp [oldOf_append, hp.oldLine]; simp [oldOf, PLUS, MINUS]
     · simp [newOf_append, hp.newLine]; simp [newOf]
-    · simp [ctxs_append, hp.oldCtx]; (have : (t.operation == SP) = false := by simpa using hne); simp [ctxs, List.filter, this, MINUS_beq_SP]
+    · simp [ctxs_append, hp.oldCtx]; (have : (t.operation == SP) = false := by simpa using hne); simp [ctxs, List.filter, this]
     · simp [ctxs_append, hp.newCtx]; simp [ctxs, MINUS, SP]
     · intro l hl
       rcases List.mem_append.mp hl with h | h
@@ -1002,7 +1002,7 @@ theorem go_nil_right : ∀ (ol : List PatchLine), OldOps ol → ∀ (fuel : Nat)
       · obtain ⟨h', hg, ha⟩ := ih hops' fuel _ hf'
         refine ⟨h', ?_, ?_⟩
         · simp only [hunkFromContextParts.go, List.head?_cons, List.head?_nil, List.tail_cons,
-            beq_self_eq_true, Bool.false_eq_true, if_false, if_true]
+            beq_self_eq_true, if_true]
           exact hg
         · rw [List.map_cons, ctxs_cons_ne _ _ _ MINUS_ne_SP]
           exact (Added.old h l).trans ha
